@@ -32,6 +32,15 @@ theorem comp_lawful (t1 : Transform X Y L) (t2 : Transform Y Z L) (h1 : Lawful t
     refine Prod.ext rfl ?_
     simp only []; abel
 
+theorem Lawful.roundTripAt {t : Transform X Z L} (h : Lawful t) (z : Z) : RoundTripAt t z := h.2 z
+
+/-- a lawful transform has only one left inverse: any `g` undoing `fwd` is the modelled `inv` -/
+theorem lawful_left_inverse_unique (t : Transform X Z L) (h : Lawful t) (g : Z → X)
+    (hg : ∀ x, g (t.fwd x).1 = x) (z : Z) : g z = (t.inv z).1 := by
+  have := hg (t.inv z).1
+  rw [h.2 z] at this
+  exact this
+
 /-- the fold of `_cascade` started from an arbitrary accumulator -/
 def cascadeFrom (fs : List (X → X × L)) (acc : X × L) : X × L :=
   fs.foldl (fun acc f => let r := f acc.1; (r.1, acc.2 + r.2)) acc
